@@ -5,13 +5,14 @@ ID = "C17"
 AREA = "c17"
 LEAN_PROPS = "Litep2pVerif.Props.C17"
 THEOREMS = ["store_bounds", "default_config_bounds", "no_expired_record", "no_expired_provider", "ttl_monotone",
-            "reannounce_in_place", "providers_closest_step", "providers_closest"]
+            "reannounce_in_place", "providers_closest_step", "providers_closest", "record_store_refines_map", "put_then_get"]
 CONSTS = ["DEFAULT_MAX_RECORDS", "DEFAULT_MAX_RECORD_SIZE_BYTES", "DEFAULT_MAX_PROVIDER_KEYS",
           "DEFAULT_MAX_PROVIDER_ADDRESSES", "DEFAULT_MAX_PROVIDERS_PER_KEY"]
 MANIFEST = {
     "text": "Lean 4 theorems (store_bounds by induction over all operation histories and all configurations; "
             "default_config_bounds on the regenerated constants; no_expired_record/provider, ttl_monotone, reannounce_in_place, "
-            "providers_closest_step) about an executable model of MemoryStore, plus a seeded correspondence run of the real "
+            "providers_closest_step; record_store_refines_map + put_then_get: the record half refines a finite map with an explicit "
+            "admission rule, every key's content after put/get/provider operations) about an executable model of MemoryStore, plus a seeded correspondence run of the real "
             "MemoryStore against the model's executable definitions and a specification-level oracle. A pure data structure: "
             "proof over all histories is the right level.",
     "note": "Trusted: Lean kernel; axioms propext/Classical.choice/Quot.sound; the hand-written model and its tie (sampled "
